@@ -32,3 +32,8 @@ ASSUMPTIONS = [
 
 # dimensions added in seeded rounds 6 and 7
 PROBES = list(PROBES) + ["output-name-held-a-longer-file", "integer-arguments-as-numpy-scalars"]
+
+# dimensions added in seeded round 9
+PROBES = list(PROBES) + ["second-mask-object-derived:evolve", "second-mask-object-derived:copy", "second-mask-object-derived:ctor", "second-mask-object-derived:deepcopy"]
+RULE = RULE + (" Round 9: 30% of mask histories derive a second RFIMask in mid-history (attrs.evolve at another threshold, copy.copy, copy.deepcopy, the constructor given the first "
+               "one's arrays), apply 1-2 operations to it, and go on with the original; each object keeps its own set model and neither may change through the other.")
